@@ -113,11 +113,12 @@ def main():
                 res.setdefault('apply_deformation', []).append({'cls': cls, 'size': list(size), 'name': nm, 'axis': ax, 'n_flagged': int(sum(flags)),
                                                                   'bad': bad[:4]})
             # noise side, dyadic parameters (exact float arithmetic)
+            c_shared = klass(*size)      # ONE code object queried by all the noise models below (same name and direction, other axis)
             for (nm, ax) in choices:
                 for (rx, ry, rz, p) in [(0.125, 0.25, 0.625, 0.25), (0.0, 0.5, 0.5, 0.5), (1.0, 0.0, 0.0, 0.125),
                                         # directions with two equal components (a relabelling that moves Y is visible only then)
                                         (0.25, 0.5, 0.25, 0.25), (0.0, 1.0, 0.0, 0.5), (0.375, 0.375, 0.25, 0.125)]:
-                    c = klass(*size)
+                    c = c_shared
                     kw = {'deformation_axis': ax} if ax else {}
                     und = PauliErrorModel(rx, ry, rz).probability_distribution(c, p)
                     dfm = PauliErrorModel(rx, ry, rz, deformation_name=nm, deformation_kwargs=kw).probability_distribution(c, p)
